@@ -90,7 +90,7 @@ package proxy
 //@   ensures resp.Body != nil
 //@   ensures old(specHdInv(clientHd)) ==> specHdInv(clientHd)
 //@   ensures specFetchErr(err)
-//@   ensures specReqOK(req) && req.ctx == old(req.ctx)
+//@   ensures specReqOK(req) && req.ctx == old(req.ctx) && req.Body == old(req.Body)
 //@   ensures [C05] upcancels >= old(upcancels) && (!ctxcancellable(old(req.ctx)) ==> upcancels == old(upcancels))
 //@   requires resp.StatusCode >= 100 && resp.StatusCode <= 999
 //@   ensures resp.StatusCode >= 100 && resp.StatusCode <= 999
@@ -109,7 +109,7 @@ package proxy
 //@   ensures [C06] old(resp.StatusCode) != 200 && old(resp.StatusCode) != 304 && old(resp.StatusCode) != 416 ==> cached == nil && err == nil && unchanged("cache.") && upcalls == old(upcalls)
 //@   ensures old(specHdInv(clientHd)) ==> specHdInv(clientHd)
 //@   ensures specFetchErr(err)
-//@   ensures specReqOK(req) && req.ctx == old(req.ctx)
+//@   ensures specReqOK(req) && req.ctx == old(req.ctx) && req.Body == old(req.Body)
 //@   ensures [C05] upcancels >= old(upcancels) && (!ctxcancellable(old(req.ctx)) ==> upcancels == old(upcancels))
 //@   requires resp.StatusCode >= 100 && resp.StatusCode <= 999
 //@   ensures resp.StatusCode >= 100 && resp.StatusCode <= 999
@@ -122,7 +122,7 @@ package proxy
 //@   ensures upcalls == old(upcalls) + 1
 //@   ensures result2 != nil ==> result0 == nil && iserr(result2, ErrSendRequestFailed) && upfails == old(upfails) + 1
 //@   ensures result2 == nil ==> result0 != nil && allocated(result0) && !old(allocated(result0)) && result0.Body != nil && specHdrOK(result0.Header) && result0.Request == req && result0 == uplast && upfails == old(upfails)
-//@   ensures specReqOK(req) && req.ctx == old(req.ctx)
+//@   ensures specReqOK(req) && req.ctx == old(req.ctx) && req.Body == old(req.Body)
 //@   ensures specFetchErr(result2)
 //@   ensures [C05] upcancels >= old(upcancels) && (!ctxcancellable(old(req.ctx)) ==> upcancels == old(upcancels))
 //@   ensures result2 == nil ==> result0.StatusCode >= 100 && result0.StatusCode <= 999
@@ -142,7 +142,7 @@ package proxy
 //@   ensures [C05] result1 == nil && result0.Type == 1 ==> !old(allocated(result0.Direct.Response))
 //@   ensures [C03] result1 == nil && result0.Type == 0 ==> result0.Cached.fetchInfo.Status == 0
 //@   ensures [C03] result1 == nil && result0.Type == 1 ==> result0.Direct.fetchInfo.Status == 0
-//@   ensures specReqOK(req) && req.ctx == old(req.ctx)
+//@   ensures specReqOK(req) && req.ctx == old(req.ctx) && req.Body == old(req.Body)
 //@   ensures old(specHdInv(clientHd)) ==> specHdInv(clientHd)
 //@   ensures specFetchErr(result1)
 //@   ensures result1 == nil && result0.Type == 0 ==> !result0.Cached.Coalesced
@@ -158,7 +158,7 @@ package proxy
 //@   ensures [C09] result1 != nil ==> upfails == old(upfails) + 1
 //@   ensures [C09] result1 == nil ==> specFetchShape(result0) && result0.Type == 1 && upfails == old(upfails)
 //@   ensures [C05] result1 == nil ==> result0.Direct.Response == uplast && !old(allocated(result0.Direct.Response))
-//@   ensures specReqOK(req) && req.ctx == old(req.ctx)
+//@   ensures specReqOK(req) && req.ctx == old(req.ctx) && req.Body == old(req.Body)
 //@   ensures specFetchErr(result1)
 //@   ensures [C05] upcancels >= old(upcancels) && (!ctxcancellable(old(req.ctx)) ==> upcancels == old(upcancels))
 
@@ -172,7 +172,7 @@ package proxy
 //@   ensures upfails >= old(upfails) && upcalls >= old(upcalls) + 1
 //@   ensures [C03] result1 == nil && result0.Type == 0 ==> result0.Cached.fetchInfo.Status == 0
 //@   ensures [C03] result1 == nil && result0.Type == 1 ==> result0.Direct.fetchInfo.Status == 0
-//@   ensures specReqOK(req) && req.ctx == old(req.ctx)
+//@   ensures specReqOK(req) && req.ctx == old(req.ctx) && req.Body == old(req.Body)
 //@   ensures old(specHdInv(clientHd)) ==> specHdInv(clientHd)
 //@   ensures specFetchErr(result1)
 //@   ensures result1 == nil && result0.Type == 0 ==> !result0.Cached.Coalesced
@@ -201,7 +201,7 @@ package proxy
 //@   ensures upfails >= old(upfails) && upcalls >= old(upcalls)
 //@   ensures [C05] result1 == nil && result0.Cached.fetchInfo.Status == 2 ==> upcalls == old(upcalls)
 //@   ensures [C03] result1 == nil && upcalls == old(upcalls) ==> result0.Cached.fetchInfo.Status == 2
-//@   ensures specReqOK(req) && req.ctx == old(req.ctx)
+//@   ensures specReqOK(req) && req.ctx == old(req.ctx) && req.Body == old(req.Body)
 //@   ensures old(specHdInv(clientHd)) ==> specHdInv(clientHd)
 //@   ensures specFetchErr(result1)
 //@   ensures result1 == nil ==> !result0.Cached.Coalesced
@@ -232,7 +232,7 @@ package proxy
 //@   ensures [C05] err == nil && fetched.Type == 0 && fetched.Cached.Coalesced ==> !old(allocated(fetched.Cached.Entry))
 //@   ensures upfails >= old(upfails) && upcalls >= old(upcalls)
 //@   ensures sferrs >= old(sferrs)
-//@   ensures specReqOK(req) && req.ctx == old(req.ctx)
+//@   ensures specReqOK(req) && req.ctx == old(req.ctx) && req.Body == old(req.Body)
 
 //@ props C07 C16 C15
 //@ func Proxy.handleRangeRequest
@@ -259,6 +259,7 @@ package proxy
 //@   ensures [C07] !old(specRangeOK(clientHd.Range.value.value.start, clientHd.Range.value.value.end, cached.Metadata.Size)) && !old(cfgval(p.cfg.Proxy.RetryOnInvalidRange)) ==> result == ErrRangeNotSatisfiable && httpstatus(r) == 416 && httpwrites(r) == old(httpwrites(r)) + 1 && sid(resphdr(r)["Content-Range"][0]) == old(fmtid("bytes */%d", cached.Metadata.Size))
 //@   requires specEntryShape(cached)
 //@   ensures iserr(result, ErrIfRangeMismatch) ==> specEntryShape(cached)
+//@   ensures req.Body == old(req.Body)
 
 // An If-Range does not match when it is an entity tag different from the stored
 // one, or a date earlier than the stored Last-Modified.
@@ -342,6 +343,7 @@ package proxy
 //@   ensures [C16] httpwrites(r) >= old(httpwrites(r)) + 1
 //@   ensures [C09] result != nil ==> upfails > old(upfails) || sferrs > old(sferrs) || iserr(result, ErrRangeNotSatisfiable) || ioerr(result)
 //@   ensures [C09] upfails == old(upfails) && sferrs == old(sferrs) && !ioerr(result) ==> httperrs(r) == old(httperrs(r)) || (httpstatus(r) == 416 && iserr(result, ErrRangeNotSatisfiable))
+//@   ensures req.Body == old(req.Body)
 
 // ---------------------------------------------------------------- tunnels (C10)
 
@@ -360,17 +362,21 @@ package proxy
 //@   ensures [C16] httpwrites(r) >= old(httpwrites(r)) + 1
 //@   ensures [C09] result != nil ==> upfails > old(upfails) || sferrs > old(sferrs) || iserr(result, ErrRangeNotSatisfiable) || ioerr(result)
 //@   ensures [C09] upfails == old(upfails) && sferrs == old(sferrs) && !ioerr(result) ==> httperrs(r) == old(httperrs(r)) || (httpstatus(r) == 416 && iserr(result, ErrRangeNotSatisfiable))
+//@   ensures proxyReq.Body == old(proxyReq.Body)
 
 // Every request read from a CONNECT tunnel is answered through a responder of its own, and
 // all requests of a tunnel are read through the one buffered reader created for it (a second
 // reader over the same connection would lose what the first had buffered: connreader(c) is
-// the ghost "buffered reader that reads connection c").
+// the ghost "buffered reader that reads connection c").  Before the next request is read, the
+// body of the previous one has been discarded (bodypending(b): the request body still
+// unread on buffered reader b) - otherwise its bytes would be parsed as a request.
 //@ spec func specProxy(p ptr) bool = p.cfg != nil && aset(p.cfg.Proxy.RetryOnInvalidRange.value) && specFetcher(p.fetch) && p.ca != nil
 //@ props C10 C16
 //@ func Proxy.handleCONNECT
 //@   requires specProxy(p) && proxyReq != nil
 //@   loop 1 invariant specProxy(p) && tlsConn != nil
 //@   loop 1 invariant [C10] connreader(tlsConn) == 0 || connreader(tlsConn) == connReader
+//@   loop 1 invariant [C10] bodypending(connReader) == 0
 
 // ---------------------------------------------------------------- relaying (C08)
 
@@ -379,7 +385,7 @@ package proxy
 //@ func changeRequestToTarget
 //@   assigns http.Request@req url.URL
 //@   requires req != nil && req.URL != nil
-//@   ensures req.Header == old(req.Header) && req.ctx == old(req.ctx) && req.URL != nil
+//@   ensures req.Header == old(req.Header) && req.ctx == old(req.ctx) && req.URL != nil && req.Body == old(req.Body)
 //@   ensures [C08] result == nil ==> req.URL != nil && sid(req.URL.Path) == old(sid(req.URL.Path)) && sid(req.URL.RawPath) == old(sid(req.URL.RawPath)) && sid(req.URL.RawQuery) == old(sid(req.URL.RawQuery)) && sid(req.Method) == old(sid(req.Method))
 
 // None of the hop-by-hop header fields is left after removeHopByHopHeaders.
@@ -403,6 +409,6 @@ package proxy
 //@   ensures result1 != nil ==> result0 == nil && iserr(result1, ErrSendRequestFailed) && upfails == old(upfails) + 1
 //@   ensures result1 == nil ==> result0 != nil && allocated(result0) && !old(allocated(result0)) && result0.Body != nil && specHdrOK(result0.Header) && result0.Request == req && result0 == uplast && upfails == old(upfails)
 //@   ensures upcancels >= old(upcancels) && (upcancels > old(upcancels) ==> result1 != nil && ctxcancellable(old(req.ctx)))
-//@   ensures specReqOK(req) && req.ctx == old(req.ctx)
+//@   ensures specReqOK(req) && req.ctx == old(req.ctx) && req.Body == old(req.Body)
 //@   ensures specFetchErr(result1)
 //@   ensures result1 == nil ==> result0.StatusCode >= 100 && result0.StatusCode <= 999
